@@ -141,6 +141,8 @@ def enforcement(fn, bi, extra_fail=None):
                         rk = fn.ret_kind()
                         if rk in ("result", "option") and new[0] == "enum":
                             propagated = True
+                        if rk == "bool" and new == ("bool", 0):
+                            propagated = True
                         continue
                     if d[0] not in tags:
                         tags[d[0]] = new
